@@ -7,6 +7,7 @@ import (
 
 	vk "github.com/panjf2000/gnet/v2/internal/vk"
 	errorx "github.com/panjf2000/gnet/v2/pkg/errors"
+	"github.com/panjf2000/gnet/v2/pkg/queue"
 )
 
 // ---------------------------------------------------------------------------------------
@@ -288,4 +289,69 @@ func VH_C18_FaultWhileClosing() {
 	vAssert("C18.closing.bystander_untouched", w.vUntouched(by))
 	vAssert("C18.closing.closed_exactly_once_descriptor_released", g.closes == 1 && w.vClosedOK(c, vConnFD) && w.el.countConn() == 1)
 	vReach("C18.closing.end")
+}
+
+// Isolation at the level of the reactor: the real eventloop.run() with the real Poller.Polling over a scripted batch
+// "both connections readable" (either order), ONE injected failure somewhere among the system calls of the batch, then
+// the shutdown task. The loop keeps going after the failing event; the other connection receives its bytes intact in
+// one OnTraffic, answers them, and is closed only by the shutdown (nil error); the failed one sees one OnClose(err).
+//
+//verif: mode=int unwind=6
+func VH_C18_ReactorBatchOneFault() {
+	et := vNondetBool("et")
+	w := vNewWorld(et, 1<<20)
+	c1 := w.vOpenConn(vConnFD, "c1", false, false)
+	c2 := w.vOpenConn(vConn2FD, "c2", false, false)
+	vk.MaxReads, vk.MaxWrites = 1, 2
+	vk.FaultBudget = 1
+	p1 := vNondetBytes("p1", 2)
+	p2 := vNondetBytes("p2", 2)
+	vk.S[vConnFD].Pending = p1
+	vk.S[vConn2FD].Pending = p2
+	vk.S[vConnFD].AcceptAll, vk.S[vConn2FD].AcceptAll = true, true // (short writes under failure: VH_C18_FaultOnConnEvent)
+	stops := 0
+	w.eng.turnOff = func() { stops++ }
+	var got [2][]byte
+	w.h.onTraffic = func(c *conn) Action {
+		b, _ := c.Next(-1)
+		i := 0
+		if c == c2 {
+			i = 1
+		}
+		got[i] = append(got[i], b...)
+		_, _ = c.Write(b) // echo
+		return None
+	}
+	e1 := unix.EpollEvent{Fd: int32(vConnFD), Events: 0x1}
+	e2 := unix.EpollEvent{Fd: int32(vConn2FD), Events: 0x1}
+	batch := []unix.EpollEvent{e1, e2}
+	if vNondetBool("c2_first") {
+		batch = []unix.EpollEvent{e2, e1}
+	}
+	vk.Batches = [][]unix.EpollEvent{batch, {{Fd: int32(vEventFD), Events: 0x1}}}
+	vk.WaitHook = func(call int) {
+		if call == 2 {
+			vk.FaultBudget = 0 // (the failure belongs to the batch; the shutdown sequence is C04's subject)
+			_ = w.el.poller.Trigger(queue.HighPriority, func(_ any) error { return errorx.ErrEngineShutdown }, nil)
+		}
+	}
+	err := w.el.run()
+	vAssert("C18.batch.loop_survives_the_failure", err == nil && stops == 1 && vk.WaitCalls == 2)
+	conns := [2]*conn{c1, c2}
+	pend := [2][]byte{p1, p2}
+	fds := [2]int{vConnFD, vConn2FD}
+	for i := 0; i < 2; i++ {
+		g := w.h.g(conns[i])
+		vAssert("C18.batch.closed_exactly_once", g.opens == 1 && g.closes == 1 && g.trafficAfterClose == 0 && w.vClosedOK(conns[i], fds[i]))
+		if vk.FaultCount > 0 && vk.FaultFD == fds[i] {
+			vAssert("C18.batch.failed_connection_sees_an_error", !g.closeErrNil)
+		} else {
+			// untouched by the other connection's failure: full inbound and outbound integrity, closed by shutdown only
+			// (level-triggered: the kernel may deliver a non-empty prefix per read, the rest is re-notified later)
+			n := vk.S[fds[i]].Roff
+			vAssert("C18.batch.other_connection_served_normally", g.traffics == 1 && g.closeErrNil && n >= 1 && len(got[i]) == n && got[i][0] == pend[i][0] && (n < 2 || got[i][1] == pend[i][1]))
+			vAssert("C18.batch.other_connection_echo_on_the_wire", vk.S[fds[i]].WireLen == n)
+		}
+	}
+	vReach("C18.batch.end")
 }
